@@ -560,6 +560,7 @@ func specStay(v int) bool {
 //@   loop 3 invariant [skip] skipTrivia(l.input, commentEnd(l.input, l.position)) == skipTrivia(l.input, old(l.position))
 //@   loop 3 invariant [nl] l.hadNewlineBefore == hasNL(l.input, old(l.position), l.position)
 //@   loop 3 decreases len(l.input) - l.position
+//@   loop 3 each [verbatim@C15] writeSeq(evByte(byteAt(l.input, atHead(l.position)))) && l.position == atHead(l.position)+1
 //@   ensures [cursor] lexInv(l)
 //@   ensures [skip] l.position == skipTrivia(l.input, old(l.position))
 //@   ensures [mono] l.position >= old(l.position)
